@@ -209,6 +209,10 @@ def takeList (n : Nat) (fs : List String) : Option (List String × List String) 
   if fs.length < n then none else some (fs.take n, fs.drop n)
 
 def stepSave (st : St) (ins impl : List String) : Option (St × String) := do
+  -- a seventh input field (filter lists): the number of HTTP requests one update makes
+  let (ins, expReqs) := match ins with
+    | [a, b, c, d, e, f, g] => ([a, b, c, d, e, f], some g)
+    | _ => (ins, none)
   match ins, impl with
   | [_variant, _size, _seed, expectCommit, nExtra, probe],
     committed :: newLen :: finalOK :: _reads :: badReads :: k :: rest =>
@@ -220,8 +224,15 @@ def stepSave (st : St) (ins impl : List String) : Option (St × String) := do
     let badReads ← parseNat badReads
     let (dirNames, rest) ← takeList (← parseNat k) rest
     match rest with
-    | n :: evFields =>
-      if evFields.length != (← parseNat n) then none
+    | n :: evAndMore =>
+      let n ← parseNat n
+      if evAndMore.length < n then none
+      let evFields := evAndMore.take n
+      -- optional trailer: requests seen by the HTTP source, rule lines of the intended list
+      let (reqs, wantChunks) ← (match evAndMore.drop n with
+        | [] => some (none, none)
+        | [r, c] => do pure (some (← parseNat r), some (← parseNat c))
+        | _ => none)
       let saveNo := st.saveNo + 1
       let evs ← parseEvents saveNo 0 evFields
       -- the new version: what this save wrote, in order
@@ -242,14 +253,22 @@ def stepSave (st : St) (ins impl : List String) : Option (St × String) := do
         | some prog =>
           let r := runAbort (run st.fs stray) prog
           "\t".intercalate [if expectCommit && r.2 then "1" else "0", showDir r.1 known, showEvents prog]
+      let reqStr (r : Option String) := match r with | some x => "\treqs=" ++ x | none => ""
+      let modelStr := modelStr ++ (if modelProg.isSome then reqStr expReqs else "")
       let implStr := "\t".intercalate [if committed then "1" else "0",
-        "\t".intercalate (toString dirNames.length :: dirNames), showEvents own]
+        "\t".intercalate (toString dirNames.length :: dirNames), showEvents own] ++
+        (match expReqs with | some _ => reqStr (reqs.map toString) | none => "")
       let agree := modelStr == implStr && allAccepted (run st.fs stray) own
       let spec : Option String :=
         match check i o with
         | some w => some (whyName w)
         | none =>
+          -- the committed temporary file holds exactly ONE complete version: as many
+          -- bytes, and (filter lists: one write per rule line) as many chunks
           if committed && wrote != newLen then some "C14.length"
+          else if committed && wantChunks.isSome &&
+              wantChunks != some ((evFields.filter (fun f => writeLen f != 0)).length) then
+            some "C14.oneversion"
           else if !finalOK then some "C14.content"
           else none
       let fdsSeen := (st.fdsSeen ++ 1000000 :: fdsOf evs).eraseDups
